@@ -79,8 +79,9 @@ class Dst(fm.TimeComponent):
 
     def _initialize(self):
         for k, kind in enumerate(self.ins):
-            if kind == "push":
-                self.inputs.add(fm.CallbackInput(callback=lambda c, t: None, name=f"in{k}", time=self.time, grid=fm.NoGrid(), units=""))
+            if kind in ("push", "push_static"):
+                st = kind == "push_static"
+                self.inputs.add(fm.CallbackInput(callback=lambda c, t: None, name=f"in{k}", static=st, time=None if st else self.time, grid=fm.NoGrid(), units=""))
             else:
                 self.inputs.add(name=f"in{k}", static=(kind == "static"), time=None if kind == "static" else self.time, grid=fm.NoGrid(), units="")
         self.create_connector()
@@ -126,7 +127,7 @@ def reference(spec):
         okind = spec["outputs"][p[1]]["kind"]
         src_listed = spec["outputs"][p[1]]["comp"] in listed
         dst_listed = x["comp"] in listed
-        if dst_listed and x["kind"] == "static" and okind != "static":
+        if dst_listed and x["kind"] in ("static", "push_static") and okind != "static":
             reasons.append("static_input_nonstatic_output")
         if src_listed != dst_listed:
             reasons.append("missing_component")
@@ -135,7 +136,7 @@ def reference(spec):
             elems = [("out", okind)] + [("ada", k) for k in reversed(path)] + [("in", x["kind"])]
             seen_pull = False
             for typ, k in elems:
-                must_push = (typ == "ada" and k in NEEDS_PUSH) or (typ == "in" and k == "push")
+                must_push = (typ == "ada" and k in NEEDS_PUSH) or (typ == "in" and k in ("push", "push_static"))
                 relies = typ == "ada" and k == "dpush"
                 if seen_pull and must_push and dst_listed:
                     reasons.append("dead_link")
@@ -190,7 +191,7 @@ class C19(Property):
         nodes, inputs = [], []
         for k in range(ncons):
             for _ in range(rnd.choice([1, 1, 2])):
-                inputs.append(dict(comp=f"C{k}", kind=rnd.choice(["pull", "pull", "pull", "push", "static"]), parent=None))
+                inputs.append(dict(comp=f"C{k}", kind=rnd.choice(["pull", "pull", "pull", "pull", "push", "static", "push_static"]), parent=None))
         for x in inputs:
             if rnd.random() < 0.04:
                 continue  # unconnected
@@ -284,6 +285,33 @@ class C19(Property):
         finally:
             REC.reset()
         out.count("topologies")
+        if reasons == ["unconnected_input"] and outcome == "FinamConnectError" and not events["n"] and spec.get("retry", True):
+            # history: the user adds the forgotten link(s) - through a new adapter hanging below what exists - and connects again
+            spec2 = dict(spec, inputs=[dict(x) for x in spec["inputs"]], nodes=[dict(nd) for nd in spec["nodes"]])
+            for i, x in enumerate(spec2["inputs"]):
+                if x["parent"] is None and x["comp"] in spec["listed"]:
+                    cands = [("node", j) for j, nd in enumerate(spec2["nodes"]) if nd["kind"] in ("scale", "dfix")] or [("out", k) for k, o in enumerate(spec["outputs"]) if o["kind"] != "static"]
+                    if not cands:
+                        break
+                    par = cands[i % len(cands)]
+                    spec2["nodes"].append(dict(kind="scale", parent=par))
+                    a = ADA["scale"]().with_name(f"a{len(spec2['nodes']) - 1}_scale")
+                    obj(par) >> a
+                    ads.append(a)
+                    expected_links.append((lname(par), ("adapter", a.name, None)))
+                    a >> ins[i]
+                    x["parent"] = ("node", len(spec2["nodes"]) - 1)
+                    expected_links.append((("adapter", a.name, None), ("component", x["comp"], ins[i].name)))
+            if all(x["parent"] is not None or x["comp"] not in spec["listed"] for x in spec2["inputs"]):
+                out.count("reconnect_attempts_after_refusal")
+                spec, reasons = spec2, reference(spec2)
+                try:
+                    composition.connect(T0)
+                    outcome = "ok"
+                except fm.FinamConnectError as e:
+                    outcome, msg = "FinamConnectError", str(e)
+                except Exception as e:  # pylint: disable=broad-except
+                    outcome, msg = type(e).__name__, str(e)
         if reasons:
             out.count("expected_rejections")
             for r in reasons:
@@ -325,7 +353,7 @@ class C19(Property):
 
     def coverage_gaps(self, counters, tier):
         need = ["expected_rejections", "expected_valid", "connected", "link_lists_compared", "reason_unconnected_input",
-                "reason_static_input_nonstatic_output", "reason_missing_component", "reason_branching", "reason_dead_link"]
+                "reason_static_input_nonstatic_output", "reason_missing_component", "reason_branching", "reason_dead_link", "reconnect_attempts_after_refusal"]
         return [f"{k} never observed" for k in need if not counters.get(k)]
 
 
